@@ -62,6 +62,15 @@ def gen(seed, tier):
             batches.append(order[:k])
             order = order[k:]
         cases.append({"op": "c12", "table": table, "problem": prob, "mo": mo, "par": False, "batches": batches})
+    # fitness functions answering with numpy scalars (unsigned error counts, float32 losses): the same numbers, so the same history
+    for k in range(60 if big else 24):
+        dtype = ["uint8", "uint64", "int32", "float32", "uint16", "float64"][k % 6]
+        n = r.randrange(2, 8)
+        mo = k % 4 == 3
+        table = [[sc.jq(r.choice([0, 1, 2, 3, 200]))] * (2 if mo else 1) for _ in range(n)]
+        mn = r.random() < 0.7
+        prob = {"kind": "mo", "min": [mn, mn], "agg": None, "dtype": dtype} if mo else {"kind": "so", "min": mn, "dtype": dtype}
+        cases.append({"op": "c12", "table": table, "problem": prob, "mo": mo, "par": False, "batches": [[i] for i in range(n)]})
     for _ in range(6 if big else 3):
         n = 3
         cases.append({"op": "c12", "table": sc.gen_table(r, n, 1), "problem": {"kind": "so", "min": r.random() < 0.5}, "mo": False, "par": True, "batches": [[0, 1], [2, 0]]})
